@@ -5,6 +5,7 @@ CONSTANTS
   Barrier = FALSE
   AcqBarrier = TRUE
   NotLeaderPanics = FALSE
+  ApplyRefuses = TRUE
   MaxReq = 2
   MaxTransfers = 1
   MaxCancels = 1
